@@ -33,6 +33,22 @@ def finish(ctx, mod, status, message, wall, repo, verif, known, verbose=False):
                 o.replay = found[1]
                 undecided.remove(o)
                 refuted.append(o)
+    # the run itself ended undecided (unsupported construct / drift): the bounded native corpus may still exhibit
+    # a real failing input, which is then reported as a violation of a synthetic obligation
+    if status == 'undecided' and hasattr(mod, 'native_search'):
+        class _O:
+            pass
+        o = ctx.new('engine:undecided-run:native-corpus', 'bounded', '', f'run undecided ({message[:120]}); bounded '
+                                                                         f'native corpus')
+        found = _native_search(ctx, mod, o, repo, verif)
+        if found and found[0]:
+            ctx.settle(o, REFUTED, 'native-search', 'failing input found by the bounded native corpus')
+            o.replay = found[1]
+            o._script = found[2]
+            refuted.append(o)
+            searched[o.id] = found
+        else:
+            ctx.obligations.remove(o)
     for o in refuted:
         # replay the counter-model on the real code
         rep = None
